@@ -6,7 +6,7 @@
 (* trigger holds for the case AND the judging clause is one the finding    *)
 (* lists; anything else is a violation.                                    *)
 (***************************************************************************)
-EXTENDS Naturals, Sequences, FiniteSets, TauBase
+EXTENDS Naturals, Sequences, FiniteSets, TauBase, TauLang
 
 (* how parser.rs:1382-1550 groups the members of a list on one key *)
 BatchClass(v) ==
@@ -73,8 +73,70 @@ DevIdentListBatch(src) ==
      LET b == BodyOf(src.ids, n) IN
      b.t = "map" /\ Len(b.es) = 1 /\ b.es[1].v.t = "list" /\ HasBatch(b.es[1].v.vs)
 
-Devs(c) ==
-  IF "src" \notin DOMAIN c \/ "ids" \notin DOMAIN c.src THEN {}
-  ELSE (IF DevQuantPartialBatch(c.src) THEN {"quant_partial_batch"} ELSE {})
+(* ----- negation contexts: the only places where false and missing are told apart ----- *)
+RECURSIVE CondHasNot(_), CondHasOf0(_), CondDoubleNot(_)
+CondHasNot(c) ==
+  CASE c.t = "not" -> TRUE
+    [] c.t \in {"and", "or"} -> CondHasNot(c.l) \/ CondHasNot(c.r)
+    [] c.t = "par" -> CondHasNot(c.e)
+    [] OTHER -> FALSE
+CondHasOf0(c) ==
+  CASE c.t = "of" -> c.c = 0
+    [] c.t \in {"and", "or"} -> CondHasOf0(c.l) \/ CondHasOf0(c.r)
+    [] c.t \in {"not", "par"} -> CondHasOf0(c.e)
+    [] OTHER -> FALSE
+RECURSIVE Unpar(_)
+Unpar(c) == IF c.t = "par" THEN Unpar(c.e) ELSE c
+SingleNotBody(b) == b.t = "map" /\ Len(b.es) = 1 /\ b.es[1].m = "not"
+CondDoubleNot(c) ==
+  CASE c.t = "not" -> LET x == Unpar(c.e) IN x.t = "not" \/ CondDoubleNot(x)
+    [] c.t \in {"and", "or"} -> CondDoubleNot(c.l) \/ CondDoubleNot(c.r)
+    [] c.t = "par" -> CondDoubleNot(c.e)
+    [] OTHER -> FALSE
+RECURSIVE NotOverIds(_)
+NotOverIds(c) ==    \* identifiers that appear directly under a `not`
+  CASE c.t = "not" -> (LET x == Unpar(c.e) IN IF x.t = "id" THEN {x.n} ELSE {}) \cup NotOverIds(c.e)
+    [] c.t \in {"and", "or"} -> NotOverIds(c.l) \cup NotOverIds(c.r)
+    [] c.t = "par" -> NotOverIds(c.e)
+    [] OTHER -> {}
+
+EntryNeg(en) == en.m = "not" \/ (en.m = "of" /\ en.c = 0)
+HasNegCtx(src) ==
+  \/ CondHasNot(src.cond) \/ CondHasOf0(src.cond)
+  \/ \E i \in DOMAIN AllEntries(src.ids) : EntryNeg(AllEntries(src.ids)[i])
+
+(* KF shake_double_negation: shake rewrites not not X to X; with X missing the two differ.   *)
+DevDoubleNot(src) ==
+  \/ CondDoubleNot(src.cond)
+  \/ \E n \in NotOverIds(src.cond) : SingleNotBody(BodyOf(src.ids, n))
+
+(* KF shake_flatten_seq: all(X)/of(X, n) over a sequence identifier with ONE mapping: shake   *)
+(* unwraps the one-entry group and the quantifier then counts that mapping's own operands.    *)
+DevFlattenSeq(src) ==
+  \E n \in QuantNames(src.cond) :
+     LET b == BodyOf(src.ids, n) IN b.t = "seq" /\ Len(b.ms) = 1
+
+(* KF shake_merge_batch: all(X)/of(X, n) over a sequence identifier two or more of whose       *)
+(* mappings are single plain string predicates on the same field: shake merges them into one   *)
+(* batch, which is then counted as one entry when other entries remain.                       *)
+SingleStr(m) == Len(m.es) = 1 /\ m.es[1].m \in {"none", "str"} /\ m.es[1].v.t = "pat"
+SeqBatchKey(m) == <<m.es[1].f, m.es[1].m, BatchClass(m.es[1].v)>>
+DevMergeBatch(src) ==
+  \E n \in QuantNames(src.cond) :
+     LET b == BodyOf(src.ids, n) IN
+     b.t = "seq" /\ \E i, j \in DOMAIN b.ms :
+        i < j /\ SingleStr(b.ms[i]) /\ SingleStr(b.ms[j])
+        /\ BatchClass(b.ms[i].es[1].v) # <<"solo">>
+        /\ SeqBatchKey(b.ms[i]) = SeqBatchKey(b.ms[j])
+
+(* d: 1-based index of the judged document, 0 when the judgement is not about a document *)
+Devs(c, d) ==
+  IF "src" \notin DOMAIN c \/ "ids" \notin DOMAIN c.src \/ c.src.cond.t = "text" THEN {}
+  ELSE LET indefinite == d \in DOMAIN c.docs /\ ~Definite(c.src, c.docs[d]) IN
+       (IF DevQuantPartialBatch(c.src) THEN {"quant_partial_batch"} ELSE {})
        \cup (IF DevIdentListBatch(c.src) THEN {"ident_list_batch"} ELSE {})
+       \cup (IF DevFlattenSeq(c.src) THEN {"shake_flatten_seq"} ELSE {})
+       \cup (IF DevMergeBatch(c.src) THEN {"shake_merge_batch"} ELSE {})
+       \cup (IF HasNegCtx(c.src) /\ indefinite THEN {"opt_reorder"} ELSE {})
+       \cup (IF DevDoubleNot(c.src) /\ indefinite THEN {"shake_double_negation"} ELSE {})
 =============================================================================
